@@ -713,7 +713,10 @@ PROPS = {
     },
     'C15': {
         'vx': ['U3'],
-        'extra': [extra_c15_bounded],
+        'extra': [extra_c15_bounded, kani.part([
+            {'name': 'pest_bridge::verif_kani::ascii_class_specs_match_core', 'kind': 'complete',
+             'label': 'core:ascii-class-specs', 'functions': ['u8::is_ascii_whitespace', 'u8::is_ascii_alphanumeric'], 'file': 'core',
+             'clause': 'for every byte: is_ascii_whitespace / is_ascii_alphanumeric equal the spec functions the Verus unit assumes'}], 'C15')],
         'witness': witness_u3,
         'scope': 'rejected-document half of C15: compute_error_range/scan_token_end/scan_token_start return a '
                  'range inside the input, non-inverted, on UTF-8 character boundaries, starting at or before '
@@ -721,7 +724,7 @@ PROPS = {
                  'recomputation in convert_pest_error, and every AST span of accepted documents (pest pair spans).',
         'technique': 'Verus function contracts + loop invariants on the real functions (mechanical extraction), witness replay on the real code',
         'level_text': 'Deductive proof (Verus/Z3, no bound on input length or loop iterations) that the three real functions computing the highlighted range of a parse error return a range inside the input, non-inverted, with both ends on UTF-8 character boundaries and starting at or before the reported index; termination and absence of index/overflow panics included. This is the rejected-document half of C15; line/column recomputation in convert_pest_error is iterator code outside Verus and is covered only by a bounded stand-in on the real parser (labelled, not counted); the AST-span half is produced by pest and is not decided.',
-        'level_note': 'Trusted: Verus+Z3; vstd spec of str::as_bytes; assumed contracts for u8::is_ascii_whitespace/is_ascii_alphanumeric; axiom that the bytes of a &str contain no stray continuation byte (str type invariant). Unverified: convert_pest_error (caller; supplies index on a char boundary), line/column recomputation, all AST spans.',
+        'level_note': 'Trusted: Verus+Z3; vstd spec of str::as_bytes and its proved lemma encode_utf8_valid_utf8; the two assumed contracts for u8::is_ascii_whitespace/is_ascii_alphanumeric are cross-checked for all 256 bytes by a complete Kani harness; the no-stray-continuation-byte fact is PROVED from the valid_utf8 definition of vstd (no axiom left in this unit). Unverified: convert_pest_error (caller; supplies index on a char boundary), line/column recomputation, all AST spans.',
         'design_ref': 'DESIGN.md 4 U3',
         'assumptions': ['pest reports error positions on character boundaries inside the input (precondition of '
                         'compute_error_range; the caller convert_pest_error is not under contract)'],
